@@ -8,7 +8,8 @@ Clause(tr, e) ==
   CASE e.op = "bij" -> BijClause(tr.classes[e.c1], tr.classes[e.c2], e)
     [] e.op = "check" -> CheckClause(e)
     [] e.op = "reflexive" -> ReflexiveClause(e)
-    [] e.op = "finder" -> FinderClause(e)
+    [] e.op = "finder" -> IF FinderNote(e) /\ PrintT(<<"INFO", tr.tid, "library-test-or-bijection-refuses-the-returned-pair", e.iso>>)
+                          THEN FinderClause(e) ELSE FinderClause(e)
     [] e.op = "reload" -> ReloadClause(e)
     [] e.op = "bisim" -> IF e.claim = "check" /\ ~BisimAgrees(e) /\ PrintT(<<"INFO", tr.tid, "library-test-disagrees-with-bisimulation", e.ans>>)
                          THEN "ok" ELSE BisimClause(e)
